@@ -87,7 +87,9 @@ def evaluate(
     stdout as a str.
   """
   # Set up the permission and context.
-  permission = permission or permissions.get_permission()
+  # NOTE: an empty permission set is falsy, thus compare with None explicitly.
+  if permission is None:
+    permission = permissions.get_permission()
   ctx = dict(get_context())
   if global_vars:
     ctx.update(global_vars)
